@@ -99,6 +99,11 @@ func (n *NameTrie[V]) HasChildren() bool {
 // Delete deletes the node itself. Altomatically removes the parent node if it is empty.
 func (n *NameTrie[V]) Delete() {
 	if n.par != nil {
+		if n.par.chd[n.key] != n {
+			// Already detached (e.g. a late timer still holds this node): the key may by now
+			// belong to a newer node, which must not be removed.
+			return
+		}
 		n.chd = nil
 		delete(n.par.chd, n.key)
 		if len(n.par.chd) == 0 {
@@ -118,6 +123,11 @@ func (n *NameTrie[V]) DeleteIf(pred func(V) bool) {
 		return
 	}
 	if n.par != nil {
+		if n.par.chd[n.key] != n {
+			// Already detached (e.g. a late timer still holds this node): the key may by now
+			// belong to a newer node, which must not be removed.
+			return
+		}
 		n.chd = nil
 		delete(n.par.chd, n.key)
 		if len(n.par.chd) == 0 {
